@@ -89,6 +89,9 @@ impl Prop for PExec {
             if two {
                 args.extend([if execdir { "-execdir".to_string() } else { "-exec".to_string() }, vrec_path().to_string_lossy().into_owned(), "A2".into(), "{}".into(), "+".into()]);
             }
+            // what stands after the action is evaluated on every entry ("the action itself is always true")
+            args.push("-printf".into());
+            args.push("%p\\0".into());
             let q = json_to_string(&input["quit"]);
             if !q.is_empty() {
                 args.push("-path".into());
@@ -122,7 +125,13 @@ impl Prop for PExec {
             .map(|(a, c)| json!({"argv": a.iter().map(|x| bytes_to_json(x)).collect::<Vec<_>>(), "cwd": bytes_to_json(&rel_cwd(&dir, c))}))
             .collect();
         let mut o = json!({"execs": ex, "exit": r.exit});
-        if !multi {
+        if multi {
+            let recs = split_nul(&r.out);
+            o["truthn"] = json!(recs.len());
+            if recs.len() <= 200 {
+                o["truth"] = json!(recs.iter().map(|p| bytes_to_json(&unlossy(p, &tree))).collect::<Vec<_>>());
+            }
+        } else {
             let truth: Vec<Value> = split_nul(&r.out)
                 .iter()
                 .map(|rec| if rec.len() >= 2 && rec[1] == b'|' { json!([rec[0] == b'T', bytes_to_json(&unlossy(&rec[2..], &tree))]) } else { json!([false, bytes_to_json(b"<junk>")]) })
@@ -237,7 +246,7 @@ impl Prop for PExec {
     }
 
     fn same(&self, exp: &Value, obs: &Value) -> bool {
-        obs.get("panic").is_none() && obs["exit"] == exp["exit"] && arr(&obs["execs"]) == arr(&exp["execs"]) && arr(&obs["truth"]) == arr(&exp["truth"])
+        obs.get("panic").is_none() && obs["exit"] == exp["exit"] && arr(&obs["execs"]) == arr(&exp["execs"]) && (exp.get("truth").is_none() || arr(&obs["truth"]) == arr(&exp["truth"]))
     }
 
     fn corrupt(&self, obs: &Value) -> Option<Value> {
